@@ -124,7 +124,7 @@ def run(ctx):
     PINIT = "proc_init_fixed" if fixed else "proc_init"
     ctx.meta["processor_variant"] = PINIT
     ncases = ctx.n(260, 4000)
-    cases_tree, cases_ann, cases_proc, cases_hg, cases_script = [], [], [], [], []
+    cases_tree, cases_ann, cases_proc, cases_hg, cases_script, cases_batch = [], [], [], [], [], []
     records = []
 
     for ci in range(ncases):
@@ -211,11 +211,19 @@ def run(ctx):
                 sz_ = pb.compute_size(legs, cp.sizes)
                 prow.append((k, [(ix, c) for ix, c in legs], (Z(sz_), Z(cp.flops - f0))))
                 pstep[S[nxt0]] = ({inv[ix]: c for ix, c in legs}, sz_, cp.flops - f0)
+            if not rep_:
+                # hypotheses of C18_fixed_run_reports_unsimplified_flops, and its conclusion, on this case
+                cases_batch.append(("batch%d" % ci,
+                                    "(proc_ok_b (proc_init_fixed {n} true) && present_b (batch_indices (proc_init_fixed {n} true)) "
+                                    "(proc_init_fixed {n} true) {p}, Z.eqb (pflops_acc (run_path (proc_simplify_batch "
+                                    "(proc_init_fixed {n} true)) {p})) (pflops_acc (run_path (proc_init_fixed {n} true) {p})))".format(
+                                        n=netl, p=coq(list(path))), "(true, true)"))
             cases_proc.append(("proc%d" % ci,
                                "(proc_obs ({I} {n} true), (proc_obs (proc_simplify_single ({I} {n} true)), "
-                               "proc_replay (proc_simplify_single ({I} {n} true)) {p}))".format(
+                               "(proc_replay (proc_simplify_single ({I} {n} true)) {p}, "
+                               "proc_edges_ok_b ({I} {n} true))))".format(
                                    n=netl, p=coq(ppath), I=PINIT),
-                               coq((obs0, obs1, prow))))
+                               coq((obs0, obs1, prow, True))))
 
             # scripted run of the simplify passes followed by random contractions
             cp2 = pb.ContractionProcessor(inputs, output, size_dict, track_flops=True)
@@ -349,11 +357,13 @@ def run(ctx):
     for name, imports, cases, what in (
             ("c18_tree", ["Simulators"], cases_tree, "Model/Net.v node_table vs ContractionTree getters"),
             ("c18_anneal", ["Simulators"], cases_ann, "Model/Simulators.v anneal_rows vs compute_contracted_info"),
-            ("c18_proc", ["Simulators"], cases_proc,
+            ("c18_proc", ["Simulators", "SimulatorsFacts"], cases_proc,
              "Model/Simulators.v proc_init/proc_simplify_single/proc_replay vs ContractionProcessor"),
             ("c18_script", ["Simulators"], cases_script,
              "Model/Simulators.v proc_trace vs ContractionProcessor simplify_batch/single_terms/scalars/contract_nodes"),
-            ("c18_hg", ["Simulators"], cases_hg, "Model/HGraph.v hg_replay vs HyperGraph.contract")):
+            ("c18_hg", ["Simulators"], cases_hg, "Model/HGraph.v hg_replay vs HyperGraph.contract"),
+            ("c18_batch", ["Simulators", "SimulatorsFacts"], cases_batch,
+             "hypotheses (proc_ok_b, present_b) of C18_fixed_run_reports_unsimplified_flops on the generated case")):
         failing = ctx.coq_cases(name, imports, cases, chunk=60)
         for idx, label, val in failing:
             ci = int("".join(ch for ch in label if ch.isdigit()) or 0)
